@@ -239,7 +239,7 @@ def dedupe_histories(hists):
 # --------------------------------------------------------------------------- random histories
 
 QOPS = ["=", "!=", "<", "<=", ">", ">="]
-IDX_FIELDS = ["A", "U", "F", "N", "T", "E", "PX", "Z"]
+IDX_FIELDS = ["A", "U", "F", "N", "T", "E", "PX", "Z", "O"]
 PATTERNS = ["^a", "b$", ".", "^$", "a|z", "^A", "B"]
 
 
@@ -529,16 +529,17 @@ def damage_tests(uni, rng, limit=None, nslots=3):
                     for rms in (False, True):
                         if rms and un:
                             continue   # the index goes with the schema
-                        ops = [{"op": "put", "slot": s, "o": {"K": 6 + s, "A": 4 + s % 2, "pl": s}} for s in slots]
+                        # O is omitted from the file when zero (omitempty): stored objects alternate 3 / 0
+                        ops = [{"op": "put", "slot": s, "o": {"K": 6 + s, "A": 4 + s % 2, "O": 3 * (s % 2), "pl": s}} for s in slots]
                         if nobj and (idx % 3 == 0):
                             ops.append({"op": "put", "slot": 1, "o": {"K": 6 + 1, "A": 6, "pl": 2}})   # an update: index entry moved
-                        d = {"rm": rm, "unindex": un, "rmschema": rms, "add": [{"K": 12 + j, "A": 4 + j, "pl": 3 + j} for j in range(add)]}
+                        d = {"rm": rm, "unindex": un, "rmschema": rms, "add": [{"K": 12 + j, "A": 4 + j, "O": 2 * j, "pl": 3 + j} for j in range(add)]}
                         ops.append({"op": "damage", "damage": d})
                         # life goes on after the repair
                         ops.append({"op": "put", "slot": 9, "o": {"K": 16, "A": 5}})
                         ops.append({"op": "obs"})
                         ops.append({"op": "reopen", "close": True, "create": idx % 2 == 0})
-                        out.append({"id": "dm%d" % idx, "cfg": sync_cfg(idx), "ops": ops, "fields": ["K", "A"]})
+                        out.append({"id": "dm%d" % idx, "cfg": sync_cfg(idx), "ops": ops, "fields": ["K", "A", "O"]})
                         idx += 1
     if limit and len(out) > limit:
         rng.shuffle(out)
